@@ -28,6 +28,9 @@ func finish(t vstat.Fataler, tc *tcase, res result) {
 	vstat.Class("probes", int64(res.probes))
 	vstat.Class("probes:TX", int64(res.tx))
 	vstat.Class("probes:TX:ipcsum-double-fold", int64(res.txDouble))
+	for k, n := range res.expProbes {
+		vstat.Class("expired-uncleaned-probes:"+k, int64(n))
+	}
 	vstat.Class("ops:skipped-foreign-circuit-id", int64(res.skipped))
 	vstat.Case(res.nt, vstat.Hash(jsonOf(tc)), func() any {
 		return map[string]any{"case": tc, "log": res.log}
